@@ -96,6 +96,10 @@ pub enum Op {
     NackAll { requeue: bool },
     /// ack a kept delivery through another channel of the same thread: must panic
     ForeignAck { kind: AckKind, other_slot: usize },
+    /// the same through a Consumer that lives on another channel than the delivery
+    ForeignAckViaConsumer { kind: AckKind, consumer_slot: usize },
+    /// get a message and keep its delivery (unacknowledged) for a later foreign ack
+    GetKeep { queue: String },
     CloseChannel,
     Yield,
     /// wait until the controller opens this gate
@@ -871,6 +875,35 @@ impl WorkerCtx {
                 let other: &'static Channel = self.chans[*other_slot].chan();
                 let kind = kind.clone();
                 let r = std::panic::catch_unwind(std::panic::AssertUnwindSafe(move || ack_delivery(&kind, d, other)));
+                match r {
+                    Err(p) => {
+                        let msg = if let Some(s) = p.downcast_ref::<String>() { s.clone() } else if let Some(s) = p.downcast_ref::<&str>() { s.to_string() } else { "?".into() };
+                        OpResult::Panicked(msg)
+                    }
+                    Ok(r) => unit(r),
+                }
+            }
+            Op::GetKeep { queue } => match ch.basic_get(queue.clone(), false) {
+                Ok(Some(g)) => {
+                    let got = GotMsg::from_delivery(&g.delivery, Some(g.message_count));
+                    self.chans[slot].kept.push(g.delivery);
+                    OpResult::Got(Some(got))
+                }
+                Ok(None) => OpResult::Got(None),
+                Err(e) => OpResult::Err(err_string(&e)),
+            },
+            Op::ForeignAckViaConsumer { kind, consumer_slot } => {
+                if *consumer_slot >= self.consumers.len() || self.chans[slot].kept.is_empty() {
+                    return OpResult::Skipped;
+                }
+                if self.consumers[*consumer_slot].chan_slot == slot || self.consumers[*consumer_slot].consumer.is_none() {
+                    return OpResult::Skipped;
+                }
+                let d = self.chans[slot].kept.pop().unwrap();
+                let c = self.consumers[*consumer_slot].consumer.take().unwrap();
+                let kind = kind.clone();
+                let r = std::panic::catch_unwind(std::panic::AssertUnwindSafe(|| ack_via_consumer(&kind, d, &c)));
+                self.consumers[*consumer_slot].consumer = Some(c);
                 match r {
                     Err(p) => {
                         let msg = if let Some(s) = p.downcast_ref::<String>() { s.clone() } else if let Some(s) = p.downcast_ref::<&str>() { s.to_string() } else { "?".into() };
